@@ -2,6 +2,7 @@ package world
 
 import (
 	"errors"
+	"reflect"
 
 	"github.com/go-kid/ioc/component_definition"
 	"github.com/go-kid/ioc/container"
@@ -367,3 +368,29 @@ type QualPP struct {
 
 func (p *QualPP) Naming() string { return "verif.qualpp" }
 func (p *QualPP) Order() int     { return 100 }
+
+// LabelPP is a user tag processor with a tag and a property type of its own ("label"): it stores the
+// tag's (resolved) text in the string field.
+type LabelPP struct {
+	processors.DefaultTagScanDefinitionRegistryPostProcessor
+	processors.DefaultInstantiationAwareComponentPostProcessor
+}
+
+func NewLabelPP() *LabelPP {
+	p := &LabelPP{}
+	p.NodeType = "label"
+	p.Tag = "label"
+	return p
+}
+func (p *LabelPP) Naming() string { return "verif.labelpp" }
+func (p *LabelPP) PostProcessAfterInstantiation(c any, name string) (bool, error) {
+	return true, nil
+}
+func (p *LabelPP) PostProcessProperties(props []*component_definition.Property, c any, name string) ([]*component_definition.Property, error) {
+	for _, pr := range props {
+		if pr.Tag == "label" && pr.Value.Kind() == reflect.String {
+			pr.Value.SetString(pr.TagVal)
+		}
+	}
+	return nil, nil
+}
